@@ -67,6 +67,9 @@ def run(tier):
         for op2 in range(0x10, 0x100):
             for modrm in ('c1', '08'):
                 cat.append('%s0f%02x%s0000000000' % (pfx, op2, modrm))
+    have = set(cat)
+    for b in liftgen.shift_sweep():                     # immediate shift / rotate counts around the 5-bit masking boundaries
+        if b not in have: have.add(b); cat.append(b)
     dis = run_impl('impl_x86dis.py', cat)
     forms = []; sse = []
     for h, d in zip(cat, dis):
@@ -134,9 +137,14 @@ def run(tier):
         try: ok = x86ref.exec_instr(mn, ops, st, opsize, 0x1000 + L)
         except Exception: ok = False
         return st if ok else None
-    def view(st, regs, skip=None):
-        """what the processor produced: written bits of registers, defined flags, written bytes, eip"""
+    def view(st, regs, skip=None, flags0=None, wset=()):
+        """what the processor produced: written bits of registers, defined flags, written bytes, eip; and, for every register / flag
+        the lifted semantics claim to write (wset) but the processor leaves alone in this state, its initial value (a conditionally
+        written output depends on itself: the read set must say so)"""
         v = {}
+        for n in wset:
+            if n in regs and n not in st.wregs and 'dst' not in st.undef: v['r:' + n] = regs[n]
+            elif flags0 is not None and n in flags0 and n not in st.wflags and n not in st.undef: v['f:' + n] = flags0[n]
         for r, val in st.wregs.items():
             m = st.wmask.get(r, 0xffffffff)
             if r in st.wmask and r in st.wregs and st.wmask[r] != 0xffffffff and (val & ~m) != (regs[r] & ~m): m = 0xffffffff
@@ -155,7 +163,7 @@ def run(tier):
         st0 = ref(mn, ops, regs, flags, opsize, L)
         if st0 is None: continue
         ncmp += 1
-        v0 = view(st0, regs)
+        v0 = view(st0, regs, None, flags, p['W'])
         desc = '%s regs=%s flags=%s' % (h, {r_: hex(v) for r_, v in regs.items()}, flags)
         # write probing
         for r_ in st0.wregs:
@@ -176,7 +184,7 @@ def run(tier):
                 regs2 = dict(regs); regs2[r_] ^= mk
                 st1 = ref(mn, ops, regs2, flags, opsize, L); nprobe += 1
                 if st1 is None: continue
-                v1 = view(st1, regs2)
+                v1 = view(st1, regs2, None, flags, p['W'])
                 if v1 != v0:
                     diff = [k for k in set(v0) | set(v1) if v0.get(k) != v1.get(k)]
                     note('rw:%s:%s:R:%s' % (mn, o16, r_), h, '%s: changing %s by ^0x%x changes %s, but %s is not in the reported read set %s' % (desc, r_, mk, diff, r_, sorted(p['R']))); break
@@ -185,7 +193,7 @@ def run(tier):
             fl2 = dict(flags); fl2[f] ^= 1
             st1 = ref(mn, ops, regs, fl2, opsize, L); nprobe += 1
             if st1 is None: continue
-            v1 = view(st1, regs)
+            v1 = view(st1, regs, None, fl2, p['W'])
             if v1 != v0:
                 diff = [k for k in set(v0) | set(v1) if v0.get(k) != v1.get(k)]
                 note('rw:%s:%s:R:%s' % (mn, o16, f), h, '%s: flipping %s changes %s, but %s is not in the reported read set %s' % (desc, f, diff, f, sorted(p['R'])))
@@ -194,7 +202,7 @@ def run(tier):
             if unc:
                 over = {a_: (x86ref.default_mem(a_) ^ 0xff) for a_ in unc}
                 st1 = ref(mn, ops, regs, flags, opsize, L, over); nprobe += 1
-                if st1 is not None and view(st1, regs) != v0:
+                if st1 is not None and view(st1, regs, None, flags, p['W']) != v0:
                     note('rw:%s:%s:R:mem' % (mn, o16), h, '%s: the bytes at %s influence the result but are not covered by the reported memory reads %s' % (desc, [hex(a_) for a_ in unc[:4]], [(hex(b), s) for b, s in rm]))
     # ---------------- (B) MMX / SSE operand roles
     nsse = 0
